@@ -277,6 +277,10 @@ impl<I> Import<I> {
     where
         I: Importer,
     {
+        #[cfg(gluon_verif)]
+        crate::vm::verif::sched_point("import.database_mut.compiler", &self.compiler as *const _ as usize, &|| {
+            !matches!(self.compiler.try_lock(), Err(std::sync::TryLockError::WouldBlock))
+        });
         // Since `self` lives longer than the lifetime in the mutex guard this is safe
         let mut compiler = unsafe {
             DatabaseMut {
@@ -294,6 +298,10 @@ impl<I> Import<I> {
     }
 
     pub fn snapshot(&self, thread: RootedThread) -> salsa::Snapshot<CompilerDatabase> {
+        #[cfg(gluon_verif)]
+        crate::vm::verif::sched_point("import.snapshot.compiler", &self.compiler as *const _ as usize, &|| {
+            !matches!(self.compiler.try_lock(), Err(std::sync::TryLockError::WouldBlock))
+        });
         self.compiler.lock().unwrap().snapshot(thread)
     }
 
@@ -302,6 +310,10 @@ impl<I> Import<I> {
         forker: salsa::ForkState,
         thread: RootedThread,
     ) -> salsa::Snapshot<CompilerDatabase> {
+        #[cfg(gluon_verif)]
+        crate::vm::verif::sched_point("import.fork.compiler", &self.compiler as *const _ as usize, &|| {
+            !matches!(self.compiler.try_lock(), Err(std::sync::TryLockError::WouldBlock))
+        });
         self.compiler.lock().unwrap().fork(forker, thread)
     }
 
